@@ -4,6 +4,8 @@ import (
 	"context"
 	"fmt"
 	"hash/fnv"
+	apimeta "k8s.io/apimachinery/pkg/api/meta"
+	"k8s.io/apimachinery/pkg/types"
 	"regexp"
 	"strconv"
 	"strings"
@@ -82,7 +84,11 @@ func (r *recorder) RecordEvaluation(d metrics.Decision, lv api.LevelVersion, m m
 	r.ev = append(r.ev, fmt.Sprintf("eval/%s/%s/%s", d, lv.String(), m))
 	r.mu.Unlock()
 }
-func (r *recorder) RecordExemption(a api.Attributes) { r.mu.Lock(); r.ev = append(r.ev, "exempt"); r.mu.Unlock() }
+func (r *recorder) RecordExemption(a api.Attributes) {
+	r.mu.Lock()
+	r.ev = append(r.ev, "exempt")
+	r.mu.Unlock()
+}
 func (r *recorder) RecordError(f bool, a api.Attributes) {
 	r.mu.Lock()
 	r.ev = append(r.ev, fmt.Sprintf("error/%v", f))
@@ -146,32 +152,36 @@ func (a *attrs) GetOldObject() (runtime.Object, error) {
 // ---- a case
 
 type ObjSpec struct {
-	Kind     string // "err" | "nil" | "pod" | "namespace" | "controller" | "other"
-	Pod      *corev1.Pod
-	NSName   string
-	Labels   map[string]string
-	CtlKind  string // one of controllerKinds
+	Kind       string // "err" | "nil" | "pod" | "namespace" | "controller" | "other"
+	Pod        *corev1.Pod
+	NSName     string
+	Labels     map[string]string
+	CtlKind    string // one of controllerKinds
 	NoTemplate bool
+	// object metadata no property mentions (never sent to the model): generation, resourceVersion, uid, finalizers and, on
+	// controllers, labels of the outer object
+	MetaGen int64
+	MetaRV  string
 }
 
 type AdmitCase struct {
-	Defaults admissionapi.PodSecurityDefaults
+	Defaults            admissionapi.PodSecurityDefaults
 	ExNS, ExUsers, ExRC []string
-	Res      string // "pods" | "namespaces" | controller resource | "configmaps"
-	Sub      string
-	Op       admissionv1.Operation
-	Name, NS, User string
-	Obj, Old ObjSpec
-	NSLabels map[string]string
-	NSErr    bool
-	Pods     []*corev1.Pod
-	ListErr  bool
-	ExpireAfter int // -1 none
-	Remaining   time.Duration // 0 none
-	Syn      bool
-	Salt     int
-	StdOracle bool // ask the model to judge with the Standard's own evaluator (C01)
-	Tags     []string
+	Res                 string // "pods" | "namespaces" | controller resource | "configmaps"
+	Sub                 string
+	Op                  admissionv1.Operation
+	Name, NS, User      string
+	Obj, Old            ObjSpec
+	NSLabels            map[string]string
+	NSErr               bool
+	Pods                []*corev1.Pod
+	ListErr             bool
+	ExpireAfter         int           // -1 none
+	Remaining           time.Duration // 0 none
+	Syn                 bool
+	Salt                int
+	StdOracle           bool // ask the model to judge with the Standard's own evaluator (C01)
+	Tags                []string
 }
 
 var controllerKinds = []string{"podtemplates", "replicationcontrollers", "replicasets", "deployments", "statefulsets", "daemonsets", "jobs", "cronjobs"}
@@ -213,6 +223,29 @@ func wrapController(kind string, p *corev1.Pod, noTemplate bool) runtime.Object 
 }
 
 func (o ObjSpec) runtimeObject() runtime.Object {
+	obj := o.bareObject()
+	if obj == nil || (o.MetaGen == 0 && o.MetaRV == "") {
+		return obj
+	}
+	if acc, err := apimeta.Accessor(obj); err == nil {
+		if o.Kind == "pod" {
+			obj = o.Pod.DeepCopy()
+			acc, _ = apimeta.Accessor(obj)
+		}
+		acc.SetGeneration(o.MetaGen)
+		acc.SetResourceVersion(o.MetaRV)
+		if o.MetaRV != "" {
+			acc.SetUID(types.UID("uid-" + o.MetaRV))
+			acc.SetFinalizers([]string{"example.com/f"})
+			if o.Kind == "controller" {
+				acc.SetLabels(map[string]string{"rev": o.MetaRV})
+			}
+		}
+	}
+	return obj
+}
+
+func (o ObjSpec) bareObject() runtime.Object {
 	switch o.Kind {
 	case "pod":
 		return o.Pod
@@ -319,11 +352,11 @@ type AdmitOut struct {
 	ListCalls   int        `json:"listCalls"`
 	ListTimeout int64      `json:"listTimeout"`
 	// not compared with the model
-	Reason     string `json:"-"`
-	RawMessage string `json:"-"`
-	HadDeadline bool  `json:"-"`
-	ExtraAnn   []string `json:"-"`
-	Panic      string `json:"-"`
+	Reason      string   `json:"-"`
+	RawMessage  string   `json:"-"`
+	HadDeadline bool     `json:"-"`
+	ExtraAnn    []string `json:"-"`
+	Panic       string   `json:"-"`
 }
 
 var invalidValueRe = regexp.MustCompile(`^Invalid value: (".*?"): `)
